@@ -8,7 +8,7 @@ package props
 // instant) and take a generated virtual duration.
 
 import (
-	"io"
+	"os"
 	"fmt"
 	"sort"
 	"sync"
@@ -119,7 +119,13 @@ func runC16(c c16Case) *vlib.Outcome {
 	inHarnessCall := false
 	if c.StretchMs > 0 && c.StretchMs <= 2000 {
 		ctx.Verbosity = core.EVERYTHING
-		ctx.Logger = core.NewSimpleLogger(io.Discard)
+		// (rulio's logger prints records it cannot marshal - a job holds
+		// a function - to os.Stdout: keep that out of the test's output)
+		if devnull, err := os.OpenFile(os.DevNull, os.O_WRONLY, 0); err == nil {
+			saved := os.Stdout
+			os.Stdout = devnull
+			defer func() { os.Stdout = saved; devnull.Close() }()
+		}
 		ctx.LogHook = func(level core.LogLevel, args ...interface{}) {
 			if len(args) > 1 && args[1] == "Cron.schedule" && !inHarnessCall {
 				time.Sleep(time.Duration(c.StretchMs) * time.Millisecond)
